@@ -285,7 +285,7 @@ def r5(ctx):
     # six octets: four address octets then the port in network order
     for fn in ("decode_address",):
         packs = [s for t, s in stores_in(d) if is_self_attr(t, "addrAddr") and "addrstr" in norm(s.value)]
-        ok = len(packs) >= 2 and all(norm(s.value).replace('"', "'") == "addrstr + struct.pack('!H', self.addrPort & _short_mask)" for s in packs)
+        ok = len(packs) >= 2 and all(norm(s.value).replace('"', "'") in ("addrstr + struct.pack('!H', self.addrPort & _short_mask)", "addrstr + struct.pack('>H', self.addrPort & _short_mask)") for s in packs)
         ctx.check("Address.decode_address:six-octets", ok, where(m, d), "IP forms must store inet_aton(address) followed by the 16-bit port in network byte order")
         lens = [s for t, s in stores_in(d) if is_self_attr(t, "addrLen") and prog.try_const(m, s.value) == 6]
         ctx.check("Address.decode_address:length-6", len(lens) >= 2, where(m, d), "IP forms have length 6")
